@@ -96,17 +96,15 @@ for Crossbeam<'a, ItemType, BUFFER_SIZE, MAX_STREAMS> {
 
     #[inline(always)]
     fn send(&self, item: ItemType) -> keen_retry::RetryConsumerResult<(), ItemType, ()> {
-        #[cfg(feature = "verif")] crate::verif::yield_point("uni.xb.send.before_len");
-        match self.tx.len() {
-            len_before if len_before <= 2 => {
-                #[cfg(feature = "verif")] crate::verif::yield_point("uni.xb.send.before_try_send");
-                let ret = self.tx.try_send(item);
-                #[cfg(feature = "verif")] crate::verif::yield_point("uni.xb.send.after_try_send");
-                self.streams_manager.wake_stream(0);
-                ret
-            },
-            _ => self.tx.try_send(item),
+        #[cfg(feature = "verif")] crate::verif::yield_point("uni.xb.send.before_try_send");
+        let ret = self.tx.try_send(item);
+        #[cfg(feature = "verif")] crate::verif::yield_point("uni.xb.send.after_try_send");
+        // always wake after publishing: deciding it from a length sampled before `try_send()` misses the case in which
+        // the consumer drained the channel (and went to sleep) in between -- the event would sit there until another send
+        if ret.is_ok() {
+            self.streams_manager.wake_stream(0);
         }
+        ret
             .map_or_else(|item| match item {
                                                                 TrySendError::Full(item) => keen_retry::RetryResult::Transient { input: item, error: () },
                                                                 TrySendError::Disconnected(item) => keen_retry::RetryResult::Fatal { input: item, error: () }
